@@ -9,6 +9,14 @@ def _e(profile, bin_, *args, **kw):
     return d
 
 
+def _short_reads(e, cap=13):
+    """the same engine with every read(2) on a file of the scratch area cut to `cap` bytes (shim/shortread.c)"""
+    e = dict(e)
+    e["also_build"] = list(e.get("also_build", [])) + [("shim", "shortread")]
+    e["env"] = dict(e.get("env", {}), LD_PRELOAD="{VERIF}/shim/shortread.so", SHORTREAD_DIR="{SCRATCH}", SHORTREAD_MAX=str(cap))
+    return e
+
+
 def _rayon(n):
     return {"RAYON_NUM_THREADS": str(n)}
 
@@ -67,25 +75,28 @@ PLAN = {
     },
     "C13": {
         "level": "exploration",
-        "engines": lambda tier: [_e("release", "viewmc", "c13"), _e("dev", "viewmc", "c13")],
+        "engines": lambda tier: [_e("release", "viewmc", "c13"), _e("dev", "viewmc", "c13")] + ([dict(_short_reads(_e("release", "viewmc", "c13")), side=True)] if tier == "thorough" else []),
         "assumptions": [
             "sources over Vec / file / mmap / background decoder are built through the cfg-gated hook jubako::verif (ByteRegion constructors); the container route (content #2 of a raw/compressed cluster) needs no hook",
+            "thorough tier only: the release walk is repeated with every read(2) on a file of the scratch area returning at most 13 bytes (shim/shortread.c)",
             "payload lengths 0..5 (quick) / 0..7 (thorough) plus one 5000-byte payload per source; the decoder runs on the real rayon pool, its schedule is not controlled here (C07's subject)",
         ],
     },
     "C10": {
         "level": "exploration",
-        "engines": lambda tier: [_e("release", "packmc", "c10")],
+        "engines": lambda tier: [_e("release", "packmc", "c10"), dict(_short_reads(_e("release", "packmc", "c10")), side=True)],
         "assumptions": [
             "logical containers: shapes small/multi/multi2 (+big in thorough) x 4 compressions; the reference model is the logical dump of the spec",
             "a prefix that is itself a CRC-valid pack header is outside the enumeration (the reader documents that a valid header at offset 0 wins)",
+            "environment answer: the whole enumeration is repeated with every read(2) on a pack file returning at most 13 bytes (LD_PRELOAD shim shim/shortread.c; a probe read proves the shim is in the process); other short-read sizes and interrupted reads are not enumerated",
         ],
     },
     "C11": {
         "level": "fault_enumeration",
-        "engines": lambda tier: [_e("release", "packmc", "c11")],
+        "engines": lambda tier: [_e("release", "packmc", "c11"), dict(_short_reads(_e("release", "packmc", "c11")), side=True)],
         "assumptions": [
             "faults = unavailability of content packs: removed / replaced by a directory / replaced by a different valid pack; other damage of pack files is C05/C06's subject",
+            "environment answer: the whole enumeration is repeated with every read(2) on a pack file returning at most 13 bytes (LD_PRELOAD shim shim/shortread.c; a probe read proves the shim is in the process); other short-read sizes and interrupted reads are not enumerated",
         ],
     },
     "C04": {
